@@ -10,6 +10,12 @@ _VERIF = os.path.realpath(os.path.join(os.path.dirname(__file__), "..", "..")) +
 
 def origin(exc):
     """innermost frame inside gfapy/ from which exc propagated: 'file.py:function'."""
+    # exceptions re-wrapped with field context (raise err.__class__(...) from err): the
+    # mechanism is where the root cause was raised
+    seen = 0
+    while exc.__cause__ is not None and seen < 10:
+        exc = exc.__cause__
+        seen += 1
     tb = exc.__traceback__
     best = None
     while tb is not None:
